@@ -4,8 +4,8 @@ func init() {
 	register(&Prop{
 		ID: "C11", Title: "OrderedMap and Set: insertion-ordered model, exact diffs, no deadlock", Level: "exploration",
 		Subs: []Sub{
-			{Pkg: "sets", Harness: "seqset", Weight: 2, Note: "1-task configuration: validates the set model"},
-			{Pkg: "sets", Harness: "seqmap", Weight: 1, Note: "1-task configuration: validates the map model"},
+			{Pkg: "sets", Harness: "seqset", Weight: 2, Native: true, Note: "1-task configuration: validates the set model"},
+			{Pkg: "sets", Harness: "seqmap", Weight: 1, Native: true, Note: "1-task configuration: validates the map model"},
 			{Pkg: "sets", Harness: "concset", Weight: 3, Note: "full method mix incl. DeleteAll"},
 			{Pkg: "sets", Harness: "concset", Config: "nodeleteall", Weight: 3, Note: "without DeleteAll, so that histories are checked in runs the DeleteAll deadlock would end"},
 			{Pkg: "sets", Harness: "concmap", Weight: 2},
